@@ -90,7 +90,10 @@ CHECK_DEADLOCK FALSE
     for k in ("Apply", "Add", "Refund", "Change"):
         if kinds[(k, True)] == 0 or kinds[(k, False)] == 0:
             raise Inconclusive("vacuity: %s transactions were never both accepted and rejected: %s" % (k, dict(kinds)))
+    from common import tlaps
+    proof = tlaps(ctx, ["MinerRegistryCore.tla"], "MinerRegistryProof")
     coverage = {
+        "design_level_theorems": proof,
         "states": mc["distinct"] + g2["distinct"],
         "transitions": mc["generated"] + g2["generated"],
         "traces_validated_against_impl": len(hists),
